@@ -91,7 +91,9 @@ func createGetCmafIngesterInfoHdlr(s *Server) func(ctx context.Context, input *i
 		if err != nil {
 			return nil, huma.Error400BadRequest(fmt.Sprintf("Invalid ID: %s", input.Id))
 		}
+		s.cmafMgr.mu.RLock()
 		ing, ok := s.cmafMgr.ingesters[uint64(id)]
+		s.cmafMgr.mu.RUnlock()
 		if !ok {
 			return nil, huma.Error404NotFound(fmt.Sprintf("CMAF ingest %s not found", input.Id))
 		}
@@ -111,7 +113,9 @@ func createStepCmafIngesterHdlr(s *Server) func(ctx context.Context, input *idIn
 		if err != nil {
 			return nil, huma.Error400BadRequest(fmt.Sprintf("Invalid ID: %s", input.Id))
 		}
+		s.cmafMgr.mu.RLock()
 		ci, ok := s.cmafMgr.ingesters[uint64(id)]
+		s.cmafMgr.mu.RUnlock()
 		if !ok {
 			return nil, huma.Error404NotFound(fmt.Sprintf("CMAF ingest %s not found", input.Id))
 		}
@@ -128,6 +132,8 @@ func createDeleteCmafIngesterHdlr(s *Server) func(ctx context.Context, input *id
 		if err != nil {
 			return nil, huma.Error400BadRequest(fmt.Sprintf("Invalid ID: %s", input.Id))
 		}
+		s.cmafMgr.mu.RLock()
+		defer s.cmafMgr.mu.RUnlock()
 		ci, ok := s.cmafMgr.ingesters[uint64(id)]
 		if !ok {
 			return nil, huma.Error404NotFound(fmt.Sprintf("CMAF ingest %s not found", input.Id))
